@@ -13,6 +13,10 @@ pub struct Cfg {
     pub version: u32,
     pub limit: Option<usize>,
     pub blocks: u64,
+    /// 0 = the general mix; 1 = range queries with small limits over key sets holding expired entries
+    pub focus: u8,
+    /// judge automatic timestamps (the C12 oracle); other properties only compare with the model
+    pub autocheck: bool,
 }
 
 fn now_ns() -> u64 {
@@ -137,7 +141,9 @@ impl Runner {
     /// answered OlderTimestamp unless the key itself is pinned at the maximum timestamp.
     fn check_auto(&mut self, key: &[u8], ts: Option<u64>, key_ts_before: Option<u64>, result: &str) {
         if let Some(t) = ts {
-            if t >= u64::MAX - 1 && !result.starts_with("err") {
+            // F2 class: an accepted explicit timestamp close enough to the maximum for the automatic
+            // writes of one sequence to carry the clock shard to u64::MAX
+            if t >= u64::MAX - 1000 && !result.starts_with("err") {
                 self.near_max_accepted = true;
             }
             if t == u64::MAX && !result.starts_with("err") {
@@ -145,7 +151,7 @@ impl Runner {
             }
         }
         let auto = ts.map_or(true, |t| t == 0);
-        if auto && result == "err:older" && !self.pinned.contains(key) && self.verdict.is_none() {
+        if self.cfg.autocheck && auto && result == "err:older" && !self.pinned.contains(key) && self.verdict.is_none() {
             self.verdict = Some(format!(
                 "FAIL auto-write-rejected-as-older key={} key_ts={:?} class={}",
                 hex(&key[..key.len().min(16)]),
@@ -286,7 +292,7 @@ pub fn run_sequence(cfg: &Cfg, seed: u64, nops: usize, path: &str) -> (String, S
     for i in 0..nops {
         let key = gen_key(&mut rng, nkeys, cfg);
         let now = now_ns();
-        let kind = rng.below(100);
+        let kind = if cfg.focus == 1 { [0, 0, 0, 0, 0, 84, 84, 84, 84, 42, 30, 76, 90, rng.below(100)][rng.below(14) as usize] } else { rng.below(100) };
         let kh = if key.len() > 300 { format!("@r{},{}", 0, 0) } else { hex(&key) };
         // long keys are passed as a generated spec: first byte + fill
         let (key, kh) = if key.len() > 300 {
@@ -301,8 +307,11 @@ pub fn run_sequence(cfg: &Cfg, seed: u64, nops: usize, path: &str) -> (String, S
                 let v = gen_value(&mut rng, seed.wrapping_mul(1000).wrapping_add(i as u64));
                 let vb = v.bytes();
                 let ts = gen_ts(&mut rng, r.store(), &key, now, cfg.extreme);
-                let use_ttl_api = rng.chance(1, 3);
+                let use_ttl_api = if cfg.focus == 1 { rng.chance(2, 3) } else { rng.chance(1, 3) };
                 let mut ttl = if use_ttl_api { gen_ttl(&mut rng) } else { 0 };
+                if cfg.focus == 1 && use_ttl_api && rng.chance(1, 2) {
+                    ttl = rng.range(1, 3000); // expired on arrival (timestamp four hours back, below)
+                }
                 // keep expiries at least an hour away from the wall clock
                 let mut ts = ts;
                 if use_ttl_api && ttl > 0 && ttl < 7200 {
@@ -527,7 +536,9 @@ pub fn run_sequence(cfg: &Cfg, seed: u64, nops: usize, path: &str) -> (String, S
                     _ => (vec![b'u'], vec![b'u', 0xff, 0xff]),
                 };
                 let (a, b) = if a.len() > 300 || b.len() > 300 { (vec![], vec![0xff]) } else { (a, b) };
-                let lim = match rng.below(5) {
+                let (a, b) = if cfg.focus == 1 && rng.chance(2, 3) { (vec![], vec![0xff; 4]) } else { (a, b) };
+                let lim = match if cfg.focus == 1 { 5 + rng.below(5) } else { rng.below(5) } {
+                    5..=9 => rng.range(1, 6) as usize,
                     0 => 0,
                     1 => 1,
                     2 => 2,
@@ -638,7 +649,7 @@ pub fn run_sequence(cfg: &Cfg, seed: u64, nops: usize, path: &str) -> (String, S
 /// automatic write saturates the clock shard; afterwards the second automatic write on any other
 /// key of that shard is answered OlderTimestamp.
 pub fn run_directed_f2() -> (String, String, String) {
-    let cfg = Cfg { extreme: true, persistent: false, cache: false, ttl: false, version: 3, limit: None, blocks: 0 };
+    let cfg = Cfg { extreme: true, persistent: false, cache: false, ttl: false, version: 3, limit: None, blocks: 0, focus: 0, autocheck: true };
     let store = open(&cfg, "").unwrap();
     let recsize = FeoxStore::verif_record_overhead();
     let mut r = Runner {
@@ -686,11 +697,11 @@ pub fn configs(extreme: bool) -> Vec<Cfg> {
     let mut v = Vec::new();
     for ttl in [false, true] {
         for limit in [None, Some(2600usize)] {
-            v.push(Cfg { extreme, persistent: false, cache: false, ttl, version: 3, limit, blocks: 0 });
+            v.push(Cfg { extreme, persistent: false, cache: false, ttl, version: 3, limit, blocks: 0, focus: 0, autocheck: false });
         }
         for cache in [false, true] {
             for version in [1u32, 2, 3] {
-                v.push(Cfg { extreme, persistent: true, cache, ttl, version, limit: None, blocks: 4096 });
+                v.push(Cfg { extreme, persistent: true, cache, ttl, version, limit: None, blocks: 4096, focus: 0, autocheck: false });
             }
         }
     }
@@ -706,6 +717,17 @@ pub fn run(opts: &Opts) -> i32 {
     let scratch = format!("{dir}/dev");
     std::fs::create_dir_all(&scratch).unwrap();
     let mut cfgs = configs(opts.u64("extreme", 0) == 1);
+    if opts.u64("autocheck", 0) == 1 {
+        for c in cfgs.iter_mut() {
+            c.autocheck = true;
+        }
+    }
+    if opts.u64("focus", 0) == 1 {
+        cfgs.retain(|c| c.ttl && c.version == 3);
+        for c in cfgs.iter_mut() {
+            c.focus = 1;
+        }
+    }
     if opts.get("only") == Some("persistent") {
         cfgs.retain(|c| c.persistent);
     }
